@@ -192,17 +192,24 @@ Definition periodOf (ng : bool) (mode : mpdType) (cont : bool) (snr : Z) (period
   do out <- mapM (splitAS ng mode cont snr pNr periodDur) ases;
   Ok {| pd_nr := pNr; pd_start := pNr * periodDur; pd_as := out |}.
 
-Definition rangeOf (widen : option Z) (mode : mpdType) (periodDur : Z) (ases : list asIn) (k0 k1 kmin kmax : Z) : res (Z * Z) :=
+Definition rangeOf (widen : option (Z * Z)) (mode : mpdType) (periodDur : Z) (ases : list asIn) (k0 k1 kmin kmax : Z) : res (Z * Z) :=
   match widen, mode with
   | None, _ | _, MNumber => Ok (k0, k1)
   | Some _, _ => widenRange periodDur ases kmin kmax k0 k1
   end.
-(** [widen = Some atoMS]: the tree contains the widening repair; [atoMS] = round(1000 * ato) of a
-    finite positive availabilityTimeOffset, else 0.  The upper bound of the widened range: *)
-Definition kmaxOf (widen : option Z) (periodDur astMS nowMS k1 : Z) : Z :=
+(** [widen = Some (atoMS, loopMS)]: the tree contains the widening repair; [atoMS] =
+    round(1000 * ato) of a finite positive availabilityTimeOffset, else 0; [loopMS] = asset.LoopDurMS.
+    The bounds of the widened range: the period of now + ato above, the period one loop before the
+    window start below (commit e74431e; no segment is longer than the loop). *)
+Definition kmaxOf (widen : option (Z * Z)) (periodDur astMS nowMS k1 : Z) : Z :=
   match widen with
-  | Some atoMS => if atoMS >? 0 then Z.quot (nowMS + atoMS - astMS) (periodDur * 1000) else k1
+  | Some (atoMS, _) => if atoMS >? 0 then Z.quot (nowMS + atoMS - astMS) (periodDur * 1000) else k1
   | None => k1
+  end.
+Definition kminOf (widen : option (Z * Z)) (periodDur astMS startTimeMS k0 : Z) : Z :=
+  match widen with
+  | Some (_, loopMS) => Z.quot (startTimeMS - astMS - loopMS) (periodDur * 1000)
+  | None => k0 - 1
   end.
 
 (** [splitPeriod] for [cfg.PeriodsPerHour = &pph]; [astMS = cfg.StartTimeS*1000], [snr =
@@ -211,7 +218,7 @@ Definition kmaxOf (widen : option Z) (periodDur astMS nowMS k1 : Z) : Z :=
     harness; [false] = the code before that repair).  Periods are counted from
     availabilityStartTime (repository commit 961c9dc), the $Number$ startNumber of a period
     includes the configured start number (bde286d). *)
-Definition splitPeriod (ng : bool) (widen : option Z) (pph segDurMS : Z) (mode : mpdType) (cont : bool) (astMS snr : Z) (startTimeMS nowMS : Z)
+Definition splitPeriod (ng : bool) (widen : option (Z * Z)) (pph segDurMS : Z) (mode : mpdType) (cont : bool) (astMS snr : Z) (startTimeMS nowMS : Z)
            (ases : list asIn) : res (list period) :=
   if pph =? 0 then Panic "splitPeriod: integer divide by zero" else
   let periodDur := Z.quot 3600 pph in
@@ -221,7 +228,7 @@ Definition splitPeriod (ng : bool) (widen : option Z) (pph segDurMS : Z) (mode :
   if periodDur * 1000 =? 0 then Panic "splitPeriod: integer divide by zero" else
   let k0 := Z.quot (startTimeMS - astMS) (periodDur * 1000) in
   let k1 := Z.quot (nowMS - astMS) (periodDur * 1000) in
-  do range <- rangeOf widen mode periodDur ases k0 k1 (k0 - 1) (kmaxOf widen periodDur astMS nowMS k1);
+  do range <- rangeOf widen mode periodDur ases k0 k1 (kminOf widen periodDur astMS startTimeMS k0) (kmaxOf widen periodDur astMS nowMS k1);
   let startPeriodNr := fst range in
   let endPeriodNr := snd range in
   (* make([]*m.Period, 0, nrPeriods) *)
@@ -241,7 +248,7 @@ Definition pphRangeMsg : string := "periods per hour must be in the range 1-3600
     of periods-per-hour (commit 9fbd9f7; answered 400), then splitPeriod with the wrap times, and
     the publishTime that replaces the single-period one in $Number$ mode ([None]: publishTime
     left as computed before).  [startNr c] is cfg.getStartNr(). *)
-Definition livePeriods (ng : bool) (widen : option Z) (loopMS : Z) (c : tcfg) (nowMS tsbdMS : Z) (pph segDurMS : Z) (mode : mpdType)
+Definition livePeriods (ng : bool) (widen : option (Z * Z)) (loopMS : Z) (c : tcfg) (nowMS tsbdMS : Z) (pph segDurMS : Z) (mode : mpdType)
            (cont : bool) (ases : list asIn) : res (list period * option Z) :=
   if (pph <=? 0) || (3600 <? pph) then Err pphRangeMsg else
   let wt := calcWrapTimes loopMS c nowMS tsbdMS in
@@ -259,7 +266,7 @@ Definition liveEndMS (nowMS : Z) (stopS : option Z) : Z :=
   | Some s => if s * 1000 <? nowMS then s * 1000 else nowMS
   | None => nowMS
   end.
-Definition livePeriodsStop (ng : bool) (widen : option Z) (loopMS : Z) (c : tcfg) (nowMS : Z) (stopS : option Z) (tsbdMS : Z)
+Definition livePeriodsStop (ng : bool) (widen : option (Z * Z)) (loopMS : Z) (c : tcfg) (nowMS : Z) (stopS : option Z) (tsbdMS : Z)
            (pph segDurMS : Z) (mode : mpdType) (cont : bool) (ases : list asIn) : res (list period * option Z) :=
   livePeriods ng widen loopMS c (liveEndMS nowMS stopS) tsbdMS pph segDurMS mode cont ases.
 
